@@ -211,6 +211,71 @@ def run(chk, replay=None):
     ev.replayed(nonlocal_n[0])
     ev.sample({"sequence": seqs2[7], "roles": {"A": fam[2], "B": fam[3]}})
 
+    # ---- the parameter-data codecs of other commands as the "other command" --------------------------------
+    # A value cache shared between commands only shows when the other command handles EQUAL values, so
+    # the disturbing calls are fed the victims' own field values: every decoded sample response of every
+    # format with a build direction is re-built with one numeric leaf at a time set to each such value.
+    import copy
+    from ..core import datafmt
+    from . import c06
+    vals = sorted({v for r in refs.values() for v in list(r.a.values()) + list(r.dec.values())
+                   if isinstance(v, int) and v > 1})
+    if chk.quick:
+        vals = [v for v in vals if v > 255][:24] + vals[:6]
+
+    def leaves(o):
+        if isinstance(o, dict):
+            for k, v in o.items():
+                if isinstance(v, int) and not isinstance(v, bool):
+                    yield o, k
+                else:
+                    for x in leaves(v):
+                        yield x
+        elif isinstance(o, list):
+            for v in o:
+                for x in leaves(v):
+                    yield x
+    ndist = 0
+    drng = random.Random(chk.seed + 9)
+    Bld = c06.builders()
+    for fmt in sorted(Bld):
+        dec = datafmt.decoder(fmt)
+        for _ in range(4 if chk.quick else 30):
+            b0 = datafmt.GEN[fmt](drng, 1) if fmt.startswith("ModeSense") else datafmt.GEN[fmt](drng)
+            try:
+                d = dec(bytearray(b0))
+            except Exception:
+                continue
+            for cont, key in list(leaves(d)):
+                old = cont[key]
+                for v in vals:
+                    cont[key] = v
+                    ndist += 1
+                    try:
+                        Bld[fmt].marshall_datain(copy.deepcopy(d))
+                    except Exception:
+                        pass            # a refused edit: not this property's concern
+                cont[key] = old
+    FS = mod("pyscsi.pyscsi.scsi_cdb_persistentreservein").PersistentReserveInReadFullStatus
+    for v in vals:
+        for t in ({"protocol_id": 0, "n_port_name": v}, {"protocol_id": 6, "sas_address": v},
+                  {"protocol_id": 4, "initiator_port_identifier": v}):
+            try:
+                FS.marshall_transport_id(dict(t))
+            except Exception:
+                pass
+    for n in names:
+        r = refs[n]
+        try:
+            check_obj(r, r.build(), "parameter-data codecs")
+            check_probe(r, "parameter-data codecs")
+        except Exception as ex:
+            chk.violation({"clause": "Isolation", "cls": n, "other": "parameter-data codecs", "field": "",
+                           "detail": {"raised": repr(ex)}, "what": "construction after other commands' data codecs ran"},
+                          dedup=("Isolation", n, "parameter-data codecs"))
+    ev.case(("data-disturbers", ndist))
+    ev.cov["data_disturbers"] = {"marshal_calls": ndist, "values": len(vals)}
+
     # ---- shared / mutable arguments --------------------------------------------------------------
     ec = mod("pyscsi.pyscsi.scsi_enum_command")
     from .c17 import _cscd, _seg
@@ -253,7 +318,8 @@ def run(chk, replay=None):
             cmd = r.build()
             dec = {k: int(v) for k, v in r.K.unmarshall_cdb(cmd.cdb).items() if isinstance(v, int)}
             enc = bytes(r.K.marshall_cdb(dict(dec)))
-            return (bytes(cmd.cdb), len(cmd.datain), bytes(cmd.dataout), tuple(sorted(dec.items())), enc)
+            enc2 = bytes(r.K.marshall_cdb({k: v for k, v in dec.items() if k != "opcode"}))
+            return (bytes(cmd.cdb), len(cmd.datain), bytes(cmd.dataout), tuple(sorted(dec.items())), enc, enc2)
         return p
     pairs = [("Read10", "Write16"), ("Inquiry", "Read16"), ("TestUnitReady", "ReportLuns"),
              ("ATAPassThrough16", "ModeSense6")]
@@ -296,8 +362,10 @@ def run(chk, replay=None):
     import subprocess as _sp
     import sys as _sys
     from ..core.runner import VERIF
-    fresh_pairs = [("Read16", "SynchronizeCache16"), ("Read10", "Write16")] if chk.quick else \
-        [("Read16", "SynchronizeCache16"), ("Read10", "Write16"), ("Inquiry", "ReportLuns"), ("ATAPassThrough16", "ModeSense6")]
+    # same class in both threads too: per-class first-use state is shared exactly there
+    fresh_pairs = [("Read16", "SynchronizeCache16"), ("Read10", "Write16"), ("Read16", "Read16")] if chk.quick else \
+        [("Read16", "SynchronizeCache16"), ("Read10", "Write16"), ("Read16", "Read16"), ("Inquiry", "ReportLuns"),
+         ("ATAPassThrough16", "ModeSense6"), ("Write16", "Write16"), ("Inquiry", "Inquiry")]
     for a, b in fresh_pairs:
         if a not in refs or b not in refs:
             continue
